@@ -88,6 +88,16 @@ Theorem C12_network_roundtrip : forall (F : Type) (parse_float : str -> option F
 Proof. exact network_roundtrip. Qed.
 Print Assumptions C12_network_roundtrip.
 
+(* ... and a grid space: sizes, the environment of every cell, boundary conditions and units system unchanged, the cell volume
+   bit-identical in value and equivalent in unit *)
+Theorem C12_grid_roundtrip : forall (F : Type) (parse_float : str -> option F) (print_float : F -> str) (zero one : F),
+  (forall x, parse_float (print_float x) = Some x) -> (forall x, existsb is_space (print_float x) = false) ->
+  (forall x, print_float x <> nil) ->
+  forall parent (g : grid_obj F), wf_grid_obj F g ->
+  exists g', read_grid F parse_float zero one parent (write_grid F print_float wr g) = Ok g' /\ grid_equiv F g g'.
+Proof. intros F pf prf zero one H1 H2 H3. exact (grid_roundtrip F pf prf zero H1 H2 H3 one). Qed.
+Print Assumptions C12_grid_roundtrip.
+
 (* what the writers put into the dictionaries reads back: every quantity is written as str(UnitValue) (C18) ... *)
 Theorem C12_quantity_text : forall (F : Type) (parse_float : str -> option F) (print_float : F -> str) (zero : F),
   (forall x, parse_float (print_float x) = Some x) -> (forall x, existsb is_space (print_float x) = false) ->
